@@ -6,12 +6,13 @@ checks="${*:-$(cd /verif/sim && ./target/checked/focasim list | tr '\n' ' ')}"
 cd /verif
 git -C /repo diff --quiet || { echo "/repo has uncommitted changes"; exit 2; }
 git -C /repo apply "$PWD/$d/patch.diff" || { echo "patch does not apply"; exit 2; }
-: > "$d/detection.txt"
+out_file="$d/${SEEDED_OUT:-detection.txt}"
+: > "$out_file"
 for c in $checks; do
   out=$(VERIF_EVIDENCE_SUFFIX=.seeded ./check $c --tier quick 2>&1)
   code=$?
   tags=$(echo "$out" | grep -oE "oracle=[^ ]+" | sort -u | tr '\n' ' ')
-  echo "$c exit=$code $tags" | tee -a "$d/detection.txt"
+  echo "$c exit=$code $tags" | tee -a "$out_file"
 done
 git -C /repo checkout -- .
 rm -f /verif/evidence/*.seeded.json /verif/evidence/*.seeded.release-profile.json
